@@ -34,8 +34,14 @@ type Plan struct {
 // contains an exception type of the code under test).
 var CustomErr error = fmt.Errorf("verif custom: %w", ErrInjected)
 
+// ExtraErrs are the error values of ErrKind 5, 6, ...; the test package may set them.
+var ExtraErrs []error
+
 // Err returns the terminal error value of the plan.
 func (p *Plan) Err() error {
+	if p.ErrKind >= 5 && p.ErrKind-5 < len(ExtraErrs) {
+		return ExtraErrs[p.ErrKind-5]
+	}
 	switch p.ErrKind {
 	case 0:
 		return io.EOF
@@ -80,7 +86,7 @@ func (p *Plan) Normalize(n int) {
 	if p.ErrAt < 0 || p.ErrAt > n {
 		p.ErrAt = n
 	}
-	if p.ErrKind < 0 || p.ErrKind > 4 {
+	if p.ErrKind < 0 || p.ErrKind > 4+len(ExtraErrs) {
 		p.ErrKind = 0
 	}
 }
